@@ -240,6 +240,7 @@ pub fn families(kind: Kind, tier: Tier) -> Vec<Box<dyn Family>> {
             v.push(Box::new(core_other_universe(2, false)));
             v.push(Box::new(classics()));
             v.push(Box::new(level3_slice(false)));
+            v.push(Box::new(level3_pairs(false)));
         }
         (_, Tier::Thorough) => {
             v.push(Box::new(core_wide()));
@@ -255,6 +256,7 @@ pub fn families(kind: Kind, tier: Tier) -> Vec<Box<dyn Family>> {
             let small: Vec<Arc<P>> = q.l1.iter().take(60).cloned().collect();
             v.push(Box::new(BinaryWith { small, base: Box::new(core_quick()), stride: 97, offset: 405 + 3240 }));
             v.push(Box::new(level3_slice(true)));
+            v.push(Box::new(level3_pairs(true)));
         }
     }
     v
